@@ -24,6 +24,9 @@ Streams
                renamings, partial renamings, direct construction); sequences of align / to_data / to_funsor
                round trips / binary ops applied alternately (A,B,A) with earlier results kept alive; every
                result gated against the raw-array oracle, a function of (data, inputs, names) only
+  classes      every class that defines its own `align` (list extracted from source each run): Tensor, default
+               Funsor.align/Align, Contraction, Constant, Delta, Gaussian; inputs with pairwise different domains;
+               gate = exact name->domain OrderedDict, value at every point, sum over each input vs brute force
   index        ravel / unravel of the model vs numpy on a box
 """
 import itertools
@@ -1324,6 +1327,317 @@ def history_stream(ctx, n):
 
 
 # ------------------------------------------------------------------------------------------
+# translator: which classes define `align` (or an eager Align rule) in the source
+# ------------------------------------------------------------------------------------------
+
+def scan_align_classes():
+    """AST scan of funsor/*.py (numpy backend files): every class with a method `align`, and every
+    function registered for the `Align` term.  Cross-checked against the live classes."""
+    import ast
+    from ..common import REPO
+    classes, rules = [], []
+    for f in sorted((REPO / "funsor").glob("*.py")):
+        tree = ast.parse(f.read_text())
+        for node in ast.walk(tree):
+            if isinstance(node, ast.ClassDef):
+                if any(isinstance(b, ast.FunctionDef) and b.name == "align" for b in node.body):
+                    classes.append((f.stem, node.name))
+            if isinstance(node, ast.FunctionDef):
+                for dec in node.decorator_list:
+                    src = ast.unparse(dec)
+                    if ".register(Align" in src or ".register(Binary, Op, Align" in src \
+                            or ", Align)" in src and ".register(" in src:
+                        rules.append((f.stem, node.name, src))
+    return sorted(set(classes)), sorted(set(rules))
+
+
+def extract(ctx):
+    from ..common import LEAN
+    classes, rules = scan_align_classes()
+    import importlib
+    for mod, cls in classes:
+        m = importlib.import_module(f"funsor.{mod}")
+        if "align" not in vars(getattr(m, cls)):
+            ctx.infra_errors.append(f"extract: {mod}.{cls} has no own align at run time")
+    ctx.extra["align_classes"] = [f"{m}.{c}" for m, c in classes]
+    ctx.extra["align_rules"] = [f"{m}.{n}" for m, n, _ in rules]
+    body = ("/- GENERATED by fv/harness/c19.py extract() from /repo/funsor/*.py on every run: the classes that\n"
+            "   define their own `align` method, and the functions registered for the `Align` term. -/\n"
+            "namespace FV.Gen.C19Align\n\n"
+            "def alignClasses : List String :=\n  [" + ", ".join(f'"{c}"' for _, c in classes) + "]\n\n"
+            "def alignRules : List String :=\n  [" + ", ".join(f'"{n}"' for _, n, _ in rules) + "]\n\n"
+            "end FV.Gen.C19Align\n")
+    out = LEAN / "FunsorVerif" / "Gen" / "C19Align.lean"
+    if not out.exists() or out.read_text() != body:
+        out.write_text(body)
+
+
+# ------------------------------------------------------------------------------------------
+# stream: every class with its own `align`, inputs with pairwise DIFFERENT domains
+# ------------------------------------------------------------------------------------------
+# Gate: (i) the full inputs OrderedDict, name -> domain, exact; (ii) the value at every point;
+# (iii) a domain-sensitive follow-up: the sum over each bounded-integer input equals the brute-force
+# sum over that input's DECLARED domain of the original term.
+
+CLASS_STREAMS = {"Funsor": "default", "Align": "align-of-align", "Tensor": "tensor", "Contraction": "contraction",
+                 "Delta": "delta", "Constant": "constant", "Gaussian": "gaussian"}
+
+
+def py_constant_snippet(wit):
+    return f"""
+# C19 replay: Constant.align must keep each name's domain, the value at every point, and sums over inputs
+import itertools, numpy as np, funsor, funsor.ops as ops
+from collections import OrderedDict
+from funsor.constant import Constant
+from funsor.domains import Bint, Real
+from funsor.tensor import Tensor
+funsor.set_backend("numpy")
+const = {wit.get('const_inputs')!r}; arg = {wit.get('arg_inputs')!r}; names = tuple({wit.get('names')!r})
+dom = lambda s: Real if s == "Real" else Bint[int(s[5:-1])]
+shape = [n for _, n in arg]
+x = Constant(OrderedDict((k, dom(d)) for k, d in const),
+             Tensor(np.arange(float(np.prod(shape))).reshape(shape) + 1.0, OrderedDict((k, Bint[n]) for k, n in arg)))
+y = x.align(names)
+rest = [k for k in x.inputs if k not in names]
+exp = [(k, x.inputs[k]) for k in list(names) + rest]
+FAILS = list(y.inputs.items()) != exp
+for k, d in const:
+    if d != "Real" and not FAILS:
+        r = y.reduce(ops.add, k)
+        env = {{j: 0 for j, dd in const if j != k and dd != "Real"}}
+        env.update({{j: funsor.Number(0.25) for j, dd in const if dd == "Real"}})
+        env.update({{j: 0 for j, _ in arg}})
+        want = dom(d).size * float(x.arg.data.ravel()[0])
+        FAILS = FAILS or abs(float(np.asarray(r(**env).data)) - want) > 1e-9
+print("inputs", list(y.inputs.items()), "expected", exp, "FAILS", FAILS)
+"""
+
+
+def _val(f, env):
+    g = f(**env) if env else f
+    g = reinterpret(g)
+    if not isinstance(g, (Tensor, Number)):
+        g = reinterpret(f)
+        g = reinterpret(g(**env) if env else g)
+    if not isinstance(g, (Tensor, Number)):
+        raise ValueError(f"not ground: {type(g).__name__}")
+    return np.asarray(g.data, dtype=np.float64)
+
+
+def check_aligned(ctx, cls, x, y, names, int_sizes, real_pts, wit, sum_op=None, tol=0.0, max_points=24):
+    """x: original, y: x.align(names).  int_sizes: {name: size} of the bounded-int inputs;
+    real_pts: {name: value funsor} for real inputs.  Returns True when everything is right."""
+    sum_op = sum_op or ops.add
+    keys = list(x.inputs)
+    rest = [k for k in keys if k not in names]
+    full = set(names) == set(keys) or not names
+    exp = OrderedDict((k, x.inputs[k]) for k in (list(names) + rest if names else keys))
+    got = OrderedDict(y.inputs)
+    if dict(got) != dict(exp) or (full and list(got.items()) != list(exp.items())):
+        ctx.fail("input", f"C19.align-{cls}-inputs", witness=wit,
+                 python=py_constant_snippet(wit) if cls == "Constant" else None,
+                 expected=str([(k, str(d)) for k, d in exp.items()]), got=str([(k, str(d)) for k, d in got.items()]))
+        return False
+    if not full:
+        ctx.count(f"classes:{cls}:partial-order-" + ("names-first" if list(got) == list(exp) else "kept"))
+    ikeys = [k for k in keys if k in int_sizes]
+
+    def close(a, b):
+        return np.array_equal(a, b) if tol == 0 else np.allclose(a, b, rtol=tol, atol=tol)
+    allpts = list(itertools.product(*[range(int_sizes[k]) for k in ikeys]))
+    if len(allpts) > max_points:          # corners + a seeded sample (lazy terms evaluate slowly)
+        corners = [tuple(0 for _ in ikeys), tuple(int_sizes[k] - 1 for k in ikeys)]
+        allpts = corners + ctx.rng.sample(allpts, max_points - 2)
+    for pt in allpts:
+        env = dict(zip(ikeys, pt))
+        env.update(real_pts)
+        if not close(_val(y, env), _val(x, env)):
+            ctx.fail("input", f"C19.align-{cls}-value", witness=dict(wit, point=str(pt)),
+                     expected=str(_val(x, env).tolist()), got=str(_val(y, env).tolist()))
+            return False
+    # domain-sensitive follow-up
+    for k in ikeys:
+        try:
+            r = y.reduce(sum_op, k)
+        except EXC as e:
+            ctx.count(f"classes:{cls}:reduce-declined")
+            continue
+        others = [j for j in ikeys if j != k]
+        opts = list(itertools.product(*[range(int_sizes[j]) for j in others]))
+        if len(opts) > max(2, max_points // 6):
+            opts = [tuple(int_sizes[j] - 1 for j in others)] + ctx.rng.sample(opts, max(1, max_points // 6 - 1))
+        for pt in opts:
+            env = dict(zip(others, pt))
+            env.update(real_pts)
+            try:
+                gotv = _val(r, env)
+            except (ValueError,) + EXC:
+                ctx.count(f"classes:{cls}:reduce-not-ground")
+                break
+            vals = [_val(x, dict(env, **{k: v})) for v in range(int_sizes[k])]
+            want = np.sum(vals, axis=0) if sum_op is ops.add else np.logaddexp.reduce(vals, axis=0)
+            if not np.allclose(gotv, want, rtol=1e-9, atol=1e-9):
+                ctx.fail("input", f"C19.align-{cls}-domain-followup", witness=dict(wit, reduced=k, point=str(pt)),
+                         expected=f"sum over {k} in Bint[{int_sizes[k]}] = {np.asarray(want).tolist()}",
+                         got=str(np.asarray(gotv).tolist()))
+                return False
+    return True
+
+
+def classes_stream(ctx, n_rounds):
+    from funsor.constant import Constant
+    from funsor.gaussian import Gaussian
+    rng = ctx.rng
+    listed = ctx.extra.get("align_classes")
+    if listed is None:
+        classes, _ = scan_align_classes()
+        listed = [f"{m}.{c}" for m, c in classes]
+    for full_name in listed:
+        cls = full_name.split(".")[-1]
+        if cls not in CLASS_STREAMS:
+            ctx.fail("correspondence", "C19.align-class-without-stream", witness={"class": full_name},
+                     expected="a stream in CLASS_STREAMS", got="none")
+    for _ in range(n_rounds):
+        pool = rng.sample(NAMES, 5)
+        szs = rng.sample([2, 3, 4, 5], 4) + [rng.choice([1, 2])]
+        size = dict(zip(pool, szs))                       # pairwise different (except the 5th)
+
+        def tens(keys, off=0.0, dtype="real"):
+            shape = tuple(size[k] for k in keys)
+            nel = int(np.prod(shape)) if shape else 1
+            if dtype == "real":
+                return Tensor(np.arange(float(nel)).reshape(shape) + off, OrderedDict((k, Bint[size[k]]) for k in keys))
+            return Tensor(np.arange(nel).reshape(shape), OrderedDict((k, Bint[size[k]]) for k in keys), nel)
+
+        def names_for(keys, k_full=3, k_part=3):
+            out = [tuple(p) for p in rng.sample(list(itertools.permutations(keys)), min(k_full, len(list(itertools.permutations(keys)))))]
+            for _ in range(k_part):
+                m = rng.randint(0, max(0, len(keys) - 1))
+                out.append(tuple(rng.sample(keys, m)))
+            return out
+        # ---- Tensor ------------------------------------------------------------------------
+        keys = rng.sample(pool[:4], 3)
+        x = tens(keys, dtype=rng.choice(["real", "int"]))
+        for names in names_for(keys):
+            y = run(lambda: x.align(names))
+            wit = {"stream": "classes", "class": "Tensor", "inputs": [(k, size[k]) for k in keys], "names": list(names)}
+            if y[0] == "raise":
+                ctx.fail("correspondence", "C19.align-Tensor-declines", witness=wit, got=y[1], expected="a tensor")
+                continue
+            if check_aligned(ctx, "Tensor", x, y[1], names, {k: size[k] for k in keys}, {}, wit):
+                n2d = OrderedDict((k, -(i + 1)) for i, k in enumerate(sorted(keys)))
+                d = np.shape(to_data(y[1], n2d))
+                if list(d) != [size[k] for k in reversed(sorted(keys))]:
+                    ctx.fail("input", "C19.align-Tensor-to_data-shape", witness=wit, got=str(d),
+                             expected=str([size[k] for k in reversed(sorted(keys))]))
+                    continue
+                ctx.case(nontrivial_key=("cls", "Tensor", tuple(keys), tuple(size[k] for k in keys), names))
+            ctx.count("classes:Tensor")
+        # ---- default Funsor.align (lazy Binary incl. a Variable and a Real input), Align.align ----
+        k1, k2 = rng.sample(pool[:4], 2), rng.sample(pool[:4], 2)
+        vname = pool[4]
+        with reflect:
+            xb = Binary(ops.add, Binary(ops.add, tens(k1, 1.0), tens(k2, 7.0)), Variable(vname, Bint[size[vname]]))
+            xr = Binary(ops.add, tens(k1, 1.0), Variable("rr", Real))
+        for x, real_pts in ((xb, {}), (xr, {"rr": Number(0.5)})):
+            keys = list(x.inputs)
+            isz = {k: size[k] for k in keys if k != "rr"}
+            for names in names_for(keys, 2, 2):
+                wit = {"stream": "classes", "class": "Funsor(default)", "inputs": [(k, str(d)) for k, d in x.inputs.items()],
+                       "names": list(names)}
+                y = run(lambda: x.align(names))
+                if y[0] == "raise":
+                    ctx.count("classes:Funsor:declined")
+                    continue
+                if check_aligned(ctx, "Funsor", x, y[1], names, isz, real_pts, wit):
+                    ctx.case(nontrivial_key=("cls", "Funsor", str(wit)))
+                ctx.count("classes:Funsor")
+                if isinstance(y[1], Align):
+                    names2 = tuple(rng.sample(keys, len(keys)))
+                    z = run(lambda: y[1].align(names2))
+                    wit2 = dict(wit, **{"class": "Align", "names2": list(names2)})
+                    if z[0] == "value" and check_aligned(ctx, "Align", x, z[1], names2, isz, real_pts, wit2):
+                        ctx.case(nontrivial_key=("cls", "Align", str(wit2)))
+                    ctx.count("classes:Align")
+        # ---- Contraction -------------------------------------------------------------------
+        with reflect:
+            rv = rng.choice(k1)
+            xc = Contraction(ops.add, ops.mul, frozenset({Variable(rv, Bint[size[rv]])}), (tens(k1, 1.0), tens(k2 + [rv] if rv not in k2 else k2, 2.0)))
+        keys = list(xc.inputs)
+        for names in names_for(keys, 2, 1):
+            wit = {"stream": "classes", "class": "Contraction", "inputs": [(k, size[k]) for k in keys], "names": list(names)}
+            y = run(lambda: xc.align(names))
+            if y[0] == "raise":
+                ctx.count("classes:Contraction:declined")
+                continue
+            if check_aligned(ctx, "Contraction", xc, y[1], names, {k: size[k] for k in keys}, {}, wit):
+                ctx.case(nontrivial_key=("cls", "Contraction", str(wit)))
+            ctx.count("classes:Contraction")
+        # ---- Constant: const inputs of pairwise different domains (incl. a Real one) ------------
+        ckeys = rng.sample(pool[:4], rng.choice([2, 3]))
+        akeys = [k for k in pool[:4] if k not in ckeys] + [pool[4]]
+        const = OrderedDict((k, Bint[size[k]]) for k in ckeys)
+        with_real = rng.random() < 0.4
+        if with_real:
+            const["rr"] = Real
+        xk = Constant(const, tens(akeys, 1.0))
+        allc = list(const)
+        for _ in range(6):
+            cperm = rng.sample(allc, len(allc))
+            names = tuple(cperm) + tuple(rng.sample(akeys, rng.randint(0, len(akeys))))
+            wit = {"stream": "classes", "class": "Constant", "const_inputs": [(k, str(d)) for k, d in const.items()],
+                   "arg_inputs": [(k, size[k]) for k in akeys], "names": list(names)}
+            y = run(lambda: xk.align(names))
+            if y[0] == "raise":
+                ctx.fail("correspondence", "C19.align-Constant-declines", witness=wit, got=y[1], expected="a Constant")
+                continue
+            isz = {k: size[k] for k in ckeys + akeys}
+            if check_aligned(ctx, "Constant", xk, y[1], names, isz, {"rr": Number(0.25)} if with_real else {}, wit):
+                ctx.case(nontrivial_key=("cls", "Constant", str(wit)))
+            ctx.count("classes:Constant")
+        # ---- Delta: points of different output domains --------------------------------------
+        dn = rng.sample(pool, 3)
+        pts = [Number(1.5), Tensor(np.array([0.5, 1.5])), Tensor(np.array([1.0, 2.0, 3.0]))]
+        rng.shuffle(pts)
+        xd = Delta(tuple((k, (p, Number(0.0))) for k, p in zip(dn, pts)))
+        for names in [tuple(rng.sample(dn, 3)) for _ in range(3)]:
+            wit = {"stream": "classes", "class": "Delta", "terms": [(k, str(p.output)) for k, p in zip(dn, pts)],
+                   "names": list(names)}
+            y = run(lambda: xd.align(names))
+            if y[0] == "raise":
+                ctx.fail("correspondence", "C19.align-Delta-declines", witness=wit, got=y[1], expected="a Delta")
+                continue
+            g = y[1]
+            if [k for k, _ in g.terms] != list(names) or dict(g.terms) != dict(xd.terms) \
+                    or dict(g.inputs) != dict(xd.inputs):
+                ctx.fail("input", "C19.align-Delta-inputs", witness=wit, expected=str(dict(xd.inputs)), got=str(dict(g.inputs)))
+                continue
+            ctx.count("classes:Delta")
+            ctx.case(nontrivial_key=("cls", "Delta", str(wit)))
+        # ---- Gaussian (also C12's): int inputs of different sizes, real inputs of different shapes ---
+        gi = rng.sample(pool[:4], 2)
+        ginputs = [(gi[0], Bint[size[gi[0]]]), ("x", Real), (gi[1], Bint[size[gi[1]]]), ("y", Reals[2])]
+        rng.shuffle(ginputs)
+        bshape = tuple(d.size for _, d in ginputs if d.dtype != "real")
+        nb_ = int(np.prod(bshape))
+        wv = (np.arange(nb_ * 3.0).reshape(bshape + (3,)) % 7) / 10
+        ps = np.broadcast_to(np.eye(3), bshape + (3, 3)).copy() + (np.arange(nb_ * 9.0).reshape(bshape + (3, 3)) % 5) / 50
+        xg = Gaussian(wv, ps, OrderedDict(ginputs))
+        keys = [k for k, _ in ginputs]
+        rp = {"x": Tensor(np.array(0.5)), "y": Tensor(np.array([0.1, -0.2]))}
+        for names in names_for(keys, 2, 1):
+            wit = {"stream": "classes", "class": "Gaussian", "inputs": [(k, str(d)) for k, d in ginputs], "names": list(names)}
+            y = run(lambda: xg.align(names))
+            if y[0] == "raise":
+                ctx.count("classes:Gaussian:declined")
+                continue
+            if check_aligned(ctx, "Gaussian", xg, y[1], names, {k: size[k] for k in gi}, rp, wit,
+                             sum_op=ops.logaddexp, tol=1e-9):
+                ctx.case(nontrivial_key=("cls", "Gaussian", str(wit)))
+            ctx.count("classes:Gaussian")
+
+
+# ------------------------------------------------------------------------------------------
 # stream: index arithmetic of the model vs numpy
 # ------------------------------------------------------------------------------------------
 
@@ -1374,6 +1688,7 @@ def correspond(ctx):
     materialize_stream(ctx, 250 if quick else 3000)
     slice_stream(ctx, 150 if quick else 1500)
     history_stream(ctx, 400 if quick else 4000)
+    classes_stream(ctx, 25 if quick else 250)
     ctx.exhaustive = True
     ctx.assumptions.append("numpy reshape / transpose / broadcast_to are modelled by their index-level "
                            "specification (row-major ravel/unravel), not verified")
@@ -1409,3 +1724,6 @@ def search(ctx, broken):
     if found():
         return
     history_stream(ctx, 4000)
+    if found():
+        return
+    classes_stream(ctx, 250)
